@@ -229,6 +229,10 @@ StartStep(M) ==
 \* (a released buffer has no contents: canonical form is all-zero cells, length untouched)
 FreeStore(M, d) == [n \in DOMAIN d |-> IF Dyn(M, M.decl[n]) THEN [d[n] EXCEPT !.al = "null", !.buf = Zeros(M.decl[n].size)] ELSE d[n]]
 
+\* ---------------- what the API exposes of a store: values, string contents up to their length ----------------
+ObsCell(cell) == IF "v" \in DOMAIN cell THEN [v |-> cell.v] ELSE [s |-> SubSeq(cell.buf, 1, cell.len), len |-> cell.len]
+Obs(d) == [n \in DOMAIN d |-> ObsCell(d[n])]
+
 \* ---------------- invariants over a store (C03, capacity contract) ----------------
 CellOK(M, n, cell) ==
   LET D == M.decl[n] IN
